@@ -25,7 +25,7 @@ import ast
 from . import e2_formula as F
 from .core import Unsupported
 from .e1_srcmodel import dotted
-from .e2_eval import AutoEvaluator, Unknown, is_unknown, need
+from .e2_eval import AutoEvaluator, Unknown, is_unknown
 from .sem import unfn
 
 ALL = F.sym(":")
@@ -180,6 +180,7 @@ class Interp(AutoEvaluator):
         self.quiet = 0
         self.maybe_returns = []
         self.depth = 0
+        self.frame = object()       # identity of the function activation under evaluation (closures are late-bound to it)
         self.root_env = {}
         self.raised = False
         self.tag_conversions = False    # True: np.asarray / np.atleast_nd(x) is the value arr(x), not x
@@ -882,7 +883,7 @@ class Interp(AutoEvaluator):
             return Unknown(f"too many arguments for {fn.name}")
         env = {}
         if target.env is not None:
-            env = dict(self.env if target.frame == self.depth else target.env)     # late binding: the defining frame as it is now
+            env = dict(self.env if target.frame is self.frame else target.env)     # late binding: the defining frame as it is now
         bound = {}
         for p_, v in zip(params, pos):
             bound[p_] = v
@@ -904,15 +905,15 @@ class Interp(AutoEvaluator):
         env.update(bound)
         self.env, self.returns, self.done, self.maybe_returns, self.raised = env, [], False, [], False
         self.depth += 1
+        frame, self.frame = self.frame, object()
         try:
             self.run(fn.body)
             rets, mrets = self.returns, self.maybe_returns
         finally:
             self.depth -= 1
+            self.frame = frame
             self.env, self.returns, self.done, self.maybe_returns, self.raised = saved
         if mrets:
-            if not rets and len(mrets) == 1:
-                return Unknown(f"conditional return in {fn.name}")
             return Unknown(f"conditional return in {fn.name}")
         if not rets:
             return NONE
@@ -924,7 +925,7 @@ class Interp(AutoEvaluator):
         if self.done:
             return
         if isinstance(st, (ast.FunctionDef, ast.AsyncFunctionDef)):
-            self.env[st.name] = Closure(st, self.env, self.depth)
+            self.env[st.name] = Closure(st, self.env, self.frame)
             return
         if isinstance(st, ast.Expr):
             if isinstance(st.value, ast.Call):
